@@ -105,7 +105,7 @@ def r3_count(ctx):
             tests.append((norm(cur.test), any(isinstance(r, ast.Raise) for r in cur.body)))
             cur = cur.orelse[0] if len(cur.orelse) == 1 and isinstance(cur.orelse[0], ast.If) else None
         want = [("isinstance(count, list) and len(nodes) not in count", True), ("np.isscalar(count) and len(nodes) != count", True)]
-        ctx.check(tests == want, ENV, "Environment.request", "a list-valued count admits only the listed sizes, a scalar count exactly that size", detail=tests, expected=want)
+        ctx.form(tests == want, ENV, "Environment.request", "a list-valued count admits only the listed sizes, a scalar count exactly that size", detail=tests, expected=want)
         ctx.form(norm(fn.body[-1]) == "return nodes" and fn.body.index(blk[0]) == len(fn.body) - 2, ENV, "Environment.request", "the count check is the last step before returning")
     inj = ctx.fn(NB, "BaseNode.inject_value")
     reqs = [c for c in ast.walk(inj) if isinstance(c, ast.Call) and norm(c.func) == "env.request"]
@@ -124,21 +124,41 @@ def r3_count(ctx):
 
 def r4_authoritative(ctx):
     fn = ctx.fn(NB, "BaseNode.inject_value")
-    raw_reads = [a for a in ast.walk(fn) if isinstance(a, ast.Attribute) and a.attr in ("value_raw", "units_raw") and norm(a.value) == "nodes[0]" and isinstance(a.ctx, ast.Load)]
-    typed_reads = [a for a in ast.walk(fn) if isinstance(a, ast.Attribute) and norm(a) in ("nodes[0].value.value", "nodes[0].value.unit")]
-    ctx.check(len(typed_reads) >= 2, NB, "BaseNode.inject_value", "the referenced node's current typed value and unit are read", detail=[norm(a) for a in typed_reads],
-              expected="modifications update node.value, never value_raw")
-    for a in raw_reads:
-        p = a
-        ok = False
-        while p is not fn:
-            par = p._parent
-            if isinstance(par, ast.If) and "isinstance(nodes[0].value, Type)" in norm(par.test) and any(p is x or any(p is y for y in ast.walk(x)) for x in par.orelse):
-                ok = True
-            p = par
-        ctx.check(ok, NB, "BaseNode.inject_value", f"`{norm(a)}` (never updated by modifications) is read only when the node has no typed value",
-                  detail=None if ok else "unguarded read of the raw representation")
-    ctx.floor("raw-representation reads", len(raw_reads), 2, file=NB)
+    # value-level: what is stored as the host's raw value / unit on the paths where the referenced node has a typed value
+    from ..flowexpr import explore as _explore
+    ex = _explore(fn, opaque_calls=True)
+    rows = {True: {"value": set(), "unit": set()}, False: {"value": set(), "unit": set()}}
+    for q in ex.paths:
+        if q.status == "raise":
+            continue
+        reqs = sorted({e.extra for e in q.events if e.kind == "call" and str(e.extra).startswith("env.request#")})
+        if len(reqs) != 1:
+            continue
+        R = f"{reqs[0]}[0]"
+        typed = None
+        for t in q.tests():
+            r, neg = t.resolved, False
+            if isinstance(r, ast.UnaryOp) and isinstance(r.op, ast.Not):
+                r, neg = r.operand, True
+            if norm(r) == f"isinstance({R}.value, Type)":
+                typed = t.extra != neg
+        if typed is None:
+            continue
+        for e in q.events:
+            if e.kind == "store" and str(e.extra).endswith(".value_raw") and R in norm(e.resolved) + " ":
+                rows[typed]["value"].add(norm(e.resolved).replace(R, "REF"))
+            if e.kind == "store" and str(e.extra).endswith(".units_raw") and R in norm(e.resolved) + " ":
+                rows[typed]["unit"].add(norm(e.resolved).replace(R, "REF"))
+    if not rows[True]["value"] or not rows[False]["value"]:
+        ctx.unrecognised(NB, "BaseNode.inject_value", "the referenced node's current typed value and unit are read", "stores of the host's raw value not found on typed / untyped paths")
+    else:
+        okv = all("REF.value.value" in v and "REF.value_raw" not in v for v in rows[True]["value"])
+        oku = all("REF.value.unit" in v and "REF.units_raw" not in v for v in rows[True]["unit"]) and bool(rows[True]["unit"])
+        ctx.check(okv and oku, NB, "BaseNode.inject_value", "the referenced node's current typed value and unit are read",
+                  detail={"value": sorted(rows[True]["value"]), "unit": sorted(rows[True]["unit"])}, expected="modifications update node.value, never value_raw")
+        okr = all(v == "REF.value_raw" for v in rows[False]["value"])
+        ctx.check(okr, NB, "BaseNode.inject_value", "`value_raw` (never updated by modifications) is read only when the node has no typed value",
+                  detail=sorted(rows[False]["value"]))
     # cast_value(): when called without a value on a node that has a typed value, the typed value is the source
     from ..flowexpr import consistent, paths
     cv = ctx.fn(NB, "BaseNode.cast_value")
@@ -213,7 +233,7 @@ def r5_empty_import(ctx):
     ctx.form(f"isinstance({var}, list)" in tests, DIP, "DIP.parse", "imported nodes are queued and the import line itself is dropped", detail=tests)
     imp = ctx.fn(ND + "node_import.py", "ImportNode.parse")
     rets = [norm(r.value) for r in ast.walk(imp) if isinstance(r, ast.Return) and r.value is not None]
-    ctx.check(rets == ["nodes_new"] and "nodes_new = []" in norm(imp), ND + "node_import.py", "ImportNode.parse", "an import always returns a list (possibly empty)", detail=rets)
+    ctx.form(rets == ["nodes_new"] and "nodes_new = []" in norm(imp), ND + "node_import.py", "ImportNode.parse", "an import always returns a list (possibly empty)", detail=rets)
 
 
 def r6_rerooting(ctx):
